@@ -5,3 +5,8 @@ package types
 // Contracts for govc (see /verif/DESIGN.md). Comment-only file; compiled only under -tags verif.
 
 //@ keyfns ReportStoreKey RequestStoreKey DataSourceStoreKey OracleScriptStoreKey ValidatorStatusStoreKey SigningResultStoreKey ResultStoreKey ReportsOfValidatorPrefixKey
+
+//@ func (k StakingKeeper) IterateBondedValidatorsByPower
+//@ trusted
+//@ func (k RollingseedKeeper) GetRollingSeed
+//@ trusted
